@@ -67,10 +67,13 @@ Proof.
     intros H. apply code_point_result_len in H. subst. simpl in *. lia.
 Qed.
 
-Lemma dec_esc_fine : forall fuel s acc, (length s < fuel)%nat ->
-  dec_esc fuel s acc <> PFuel /\ dec_esc fuel s acc <> PCrash.
+Lemma pcons_fine out r : (r <> PFuel /\ r <> PCrash) -> pcons out r <> PFuel /\ pcons out r <> PCrash.
+Proof. intros [H1 H2]. destruct r; simpl; split; congruence. Qed.
+
+Lemma dec_esc_fine : forall fuel s, (length s < fuel)%nat ->
+  dec_esc fuel s <> PFuel /\ dec_esc fuel s <> PCrash.
 Proof.
-  induction fuel as [|f IH]; intros s acc Hl; [lia|].
+  induction fuel as [|f IH]; intros s Hl; [lia|].
   cbn [dec_esc]. destruct s as [|b s0]; [split; discriminate|].
   set (s := b :: s0) in *.
   pose proof (dec_rune_size s) as Hsz. destruct (dec_rune s) as [c sz]. simpl in Hsz.
@@ -78,7 +81,7 @@ Proof.
   { rewrite skipn_length. unfold s. cbn [length]. lia. }
   destruct (c =? 0)%N; [split; discriminate|].
   destruct (c =? 37)%N.
-  2:{ apply IH. lia. }
+  2:{ apply pcons_fine. apply IH. lia. }
   set (r := match skipn sz s with
             | [] => utf8_escape (skipn sz s)
             | u :: s2 => if is_c 117 u then code_point_escape s2 else utf8_escape (skipn sz s)
@@ -90,7 +93,7 @@ Proof.
       + apply code_point_escape_len in Hr. simpl. lia.
       + apply utf8_escape_len in Hr. exact Hr. }
   destruct r as [out s'| |] eqn:Er; try (split; discriminate).
-  apply IH. specialize (Hr out s' eq_refl). lia.
+  apply pcons_fine. apply IH. specialize (Hr out s' eq_refl). lia.
 Qed.
 
 Lemma decode_escapes_fine s : decode_escapes s <> PFuel /\ decode_escapes s <> PCrash.
